@@ -70,7 +70,9 @@ pub mod stubs;
 pub mod common;
 pub mod refpeg;
 pub mod rel;
+pub mod c01;
 pub mod c03;
+pub mod c05;
 pub mod c06;
 pub mod c06t;
 pub mod c08;
@@ -80,7 +82,9 @@ pub mod c19;
 
 pub fn registry() -> Vec<(&'static str, &'static str, fn())> {
     let mut v = Vec::new();
+    c01::register(&mut v);
     c03::register(&mut v);
+    c05::register(&mut v);
     c06::register(&mut v);
     c06t::register(&mut v);
     c08::register(&mut v);
